@@ -2368,7 +2368,7 @@ class LimitSuite(HistSuite):
         cases = []
         limit = 2 ** (8 * geo[2]) - 1
         if limit > (70000 if tier == "thorough" else 1000):
-            return self.refcount_cases(geo)
+            return self.refcount_cases(geo) + self.strlimit_cases(geo)
         for extra in (0, 1, 5):
             ops = ["reset", "geo %d %d %d %d" % geo[:4], "root 0 0", "toarr 1 0"]
             n = limit + extra
@@ -2390,6 +2390,33 @@ class LimitSuite(HistSuite):
         cases += self.refcount_cases(geo)
         return cases
 
+    def strlimit_cases(self, geo):
+        """strings of exactly the longest storable length and one byte more (STRING_LENGTH_SIZE): the longer one must fail cleanly -
+        false, overflowed() set, nothing stored, document intact and usable. The slot-level model has no length limit
+        (C19.model_has_no_string_length_limit), so these lines are judged against the stated expectation only."""
+        lenb = self.cfg.get("STRING_LENGTH_SIZE", 2)
+        if lenb >= 4:
+            return []
+        L = 2 ** (8 * lenb) - 1
+        ok, bad = "61" * L, "61" * (L + 1)
+        okk, badk = "6b" * L, "6b" * (L + 1)
+        E = []
+
+        def step(op, want=None, has=None, hasnot=None):
+            E.append(Case(op, exp=None, limit=10 ** 9, nocompare=True, want=want, has=has, hasnot=hasnot))
+        step("reset"); step("geo %d %d %d %d" % geo[:4])
+        step("root 0 0"); step("set 0 sc " + ok, want="1"); step("obs 0", has="obs S" + ok + " n=0 z=0 o=0 ;")
+        step("set 0 sc " + bad, want="0"); step("obs 0", has="obs N n=0 z=0 o=1 ;")
+        step("cleardoc 0"); step("root 0 0"); step("set 0 raw " + bad, want="0"); step("obs 0", has="obs N n=0 z=0 o=1 ;")
+        step("cleardoc 0"); step("root 0 0"); step("toarr 1 0"); step("add 1 i 7", want="1"); step("add 1 sc " + bad, want="0")
+        step("obs 0", has="obs [I7] n=1 z=1 o=1 ;")
+        step("cleardoc 0"); step("obs 0", has="obs N n=0 z=0 o=0 ;")
+        step("root 0 0"); step("toarr 1 0"); step("add 1 sc 6869", want="1"); step("obs 0", has="obs [S6869] n=1 z=1 o=0 ;"); step("cleardoc 0")
+        step("root 0 0"); step("toobj 1 0"); step("setm 1 %s i 42" % okk, want="1"); step("setm 1 %s i 43" % badk, want="0")
+        step("obs 0", has="obs {" + okk + ":I42} n=1 z=1 o=1 ;", hasnot=badk)
+        step("cleardoc 0"); step("ledger")
+        return E
+
     def refcount_cases(self, geo):
         """many values sharing one copied string (the reference counter is as wide as a slot id): the string must survive until its last user goes"""
         n = getattr(self, "users", 300)
@@ -2409,6 +2436,13 @@ class LimitSuite(HistSuite):
         op, _, out = body.partition(" ")
         if op == "ledger" and out.strip() != "L0=0 L1=0 L2=0":
             return ("limit:leak", "blocks left after clear(): " + out)
+        m = case.meta
+        if m.get("want") is not None and out.strip() != m["want"]:
+            return ("limit:string-length", "'%s…' returned %s, expected %s (string length limit)" % (case.line[:40], out.strip(), m["want"]))
+        if m.get("has") and not body.startswith(m["has"]):
+            return ("limit:string-length", "after the string-length scenario: '%s…', expected to start with '%s…'" % (body[:60], m["has"][:60]))
+        if m.get("hasnot") and m["hasnot"] in body:
+            return ("limit:string-length", "a key longer than the limit is present in the document")
         return None
 
     def post(self, cases, ho):
